@@ -386,10 +386,11 @@ LEVELS = {
                 "well-formed rule list (unbounded). The model is tied to the code by evaluating it inside Coq on the harness's cases next to the "
                 "observed outputs, and the label/regex constants are regenerated from the source on every run. The go/ast syntax tree of ParseValidNameKV is "
                 "REGENERATED FROM /repo ON EVERY RUN and, under a stated semantics of the Go forms it uses (strings.Index, slices with run-time bounds, len, "
-                "regexp match, concatenation), proved to compute the model's parse_kv on every byte string.",
+                "regexp match, concatenation), proved to compute the model's parse_kv on every byte string; likewise ValidNamesSplit (fast path, the quote-aware "
+                "for loop with its continue statements, the byte stack) is proved to compute names_split for every text and one-byte separator.",
         "design_ref": "DESIGN.md section 5, C14",
         "note": "Trusted: Coq kernel + vm_compute; the Go translator (constants, IncludeZhRe; minigo.go, one constructor per go/ast node) and the semantics of "
-                "Model/GoParse.v; the correspondence harness. ValidNamesSplit, GenValidKV and RM are hand-modelled (not a compilation of the Go source). "
+                "Model/GoParse.v and Model/GoSplit.v (internal/stack.go as modelled; UnsafeBytes2Str read as string()); the correspondence harness. GenValidKV and RM are hand-modelled. "
                 "'|' inside a value is excluded (known finding D14, theorem C14_bar_in_value_refuted).",
         "technique": "Coq proof (induction over strings / rule lists) + source-to-Gallina translator with an interpreter proved equal to the model + model-vs-implementation correspondence evaluated in Coq",
     },
